@@ -16,7 +16,7 @@ from liquer.state_types import copy_state_data
 from engine.api import check, part, nt, rt, conc, quiet, pick
 from engine.runner import Ob
 from harness import evallib as el
-from harness.evallib import Box, HContext, mkstate, CALLS, command, Context
+from harness.evallib import Box, HContext, mkstate, CALLS, command, first_command, Context
 
 PROPERTY = "C10"
 LEVEL = "model_checking"
@@ -45,6 +45,19 @@ def spoil(state):
     return state
 
 
+@first_command
+def spoilfirst(context=None):
+    """a FIRST action that mutates what context.vars exposes, in place"""
+    CALLS.append("spoilfirst")
+    for k in list(context.vars.keys()):
+        val = context.vars[k]
+        if isinstance(val, list):
+            val.append(555)
+        elif isinstance(val, dict):
+            val["first"] = 555
+    return Box(0)
+
+
 @command
 def showvars(state):
     CALLS.append("showvars")
@@ -65,6 +78,8 @@ def ob_defaults(lst: List[int], dk: int, n: int) -> bool:
         expect = {"lst": list(lst), "dct": {"k": dk}, "n": n}
         with quiet():
             # evaluation 1 mutates everything it can reach
+            c0 = Context()
+            o0 = c0.evaluate("spoilfirst", cache=NoCache())      # first action mutating context.vars values in place
             c1 = Context()                      # the real recursion (two actions), global NoCache
             o1 = c1.evaluate("one/spoil", cache=NoCache())
             # whatever the state / context expose is mutated by the caller as well
@@ -177,6 +192,31 @@ def ob_cache_dict(data: Dict[str, int], key: str, extra: int) -> bool:
     return check(ok)
 
 
+def ob_cache_nested(inner: List[int], extra: int) -> bool:
+    """
+    pre: len(inner) <= 2 and all(-9 <= x <= 9 for x in inner) and -9 <= extra <= 9
+    post: _
+    """
+    cache = MemoryCache()
+    original = {"flags": list(inner), "n": {"deep": extra}}
+    data = {"flags": list(inner), "n": {"deep": extra}}
+    s = State().with_data(data)
+    s.query = "q/n"
+    cache.store(s)
+    s.data["flags"].append(extra)                 # NESTED in-place mutation of what was stored ...
+    s.data["n"]["deep"] = extra + 1
+    g1 = cache.get("q/n")
+    ok = g1 is not None and g1.data == original
+    g1.data["flags"].append(extra)                # ... and of what was served
+    g1.data["n"]["x"] = 1
+    g2 = cache.get("q/n")
+    ok = ok and g2 is not None and g2.data == original
+    c = s.clone()
+    c.data["flags"].append(1)
+    ok = ok and len(s.data["flags"]) == len(inner) + 1
+    return check(ok)
+
+
 def obligations(tier):
     q = tier == "quick"
     t = 200 if q else 900
@@ -186,5 +226,6 @@ def obligations(tier):
         obs.append(Ob("ob_vars_step", dict(q=i), timeout=t, per_path=60, twin_timeout=60,
                       bounds="(b,c) Q=%s; symbolic predecessor data, variable u, global default" % VFAM[i][0]))
     obs.append(Ob("ob_cache_list", {}, timeout=t, per_path=30, bounds="(d) MemoryCache with List[int] data len<=3"))
+    obs.append(Ob("ob_cache_nested", {}, timeout=t, per_path=30, bounds="(d) MemoryCache / State.clone with a dict holding a nested list (len<=2) and a nested dict"))
     obs.append(Ob("ob_cache_dict", {}, timeout=t, per_path=30, bounds="(d) MemoryCache with Dict[str,int] data <=2 keys from {a,b,''}, mutated key in {a,c}"))
     return obs
